@@ -27,7 +27,14 @@ Definition opv_eqb (a b : option pv) : bool := option_eqb pv_eqb a b.
      a tree along the schema: model to_json = real tree (modulo the order of object entries).
    kind 5: JSON tree -> value.  j = a document (as marshalled, or rewritten into the alternate
      forms), v = VNone (rejected) | VSome (real UnmarshalJSON result): whenever the MODEL accepts
-     the document the implementation accepted it and built the same value. *)
+     the document the implementation accepted it and built the same value.
+   kind 7: a minimal valid request with ONE hostile occurrence of one field at its end (ids of every
+     length, 11-byte / cut varints, lengths past the end, wrong wire types, group tags): TWO-SIDED —
+     the public ProtoUnmarshaler accepts iff the model's decode does, with the same value.
+   kind 6: a minimal document giving ONE field a boundary or malformed token whose meaning the
+     model defines (ids of every length, integers at and beyond their range as numbers and strings,
+     floats / booleans / words where integers are expected, unknown enum names, base64 of every
+     padding): TWO-SIDED — the implementation accepts iff the model does, with the same value. *)
 Definition check_case (c : case) : bool :=
   let '(kind, (m, (v, (hx, (sz, j))))) := c in
   let b := hex hx in
@@ -49,6 +56,16 @@ Definition check_case (c : case) : bool :=
       end
   | 3%nat => true
   | 4%nat => jv_eqb (otlp_to_json m v) j
+  | 7%nat =>
+      match decode OtlpSchema m b with
+      | None => pv_eqb v VNone
+      | Some d => pv_eqb v (VSome d)
+      end
+  | 6%nat =>
+      match otlp_of_json m j with
+      | None => pv_eqb v VNone
+      | Some d => pv_eqb v (VSome d)
+      end
   | _ =>
       match otlp_of_json m j with
       | None => true
@@ -63,6 +80,7 @@ Definition model_out (c : case) : (bytes * N) * option pv :=
   | O => ((encode OtlpSchema m v, size OtlpSchema m v), decode OtlpSchema m (encode OtlpSchema m v))
   | 1%nat => (([], 0), decode OtlpSchema m (hex hx))
   | 2%nat => (([], 0), option_map (migrate OtlpSchema m) (decode OtlpSchema m (hex hx)))
+  | 7%nat => (([], 0), decode OtlpSchema m (hex hx))
   | _ => (([], 0), otlp_of_json m j)
   end.
 
